@@ -1,4 +1,7 @@
 import PersimVerif.Lemmas.RowsSound
+import PersimVerif.Lemmas.RowsExtract
+import PersimVerif.Props.C07
+import Mathlib.Data.List.FinRange
 
 /-!
 # C06 — returned matchings certify the reported bottleneck / Wasserstein distance
@@ -51,5 +54,108 @@ theorem checkCore_sound_ws [AddCommMonoid K] [DecidableEq K] {rows : List (Row K
   exact ⟨t.toPM, by rw [t.sum_eq c u v _ hc', rowsSum_eq_sum_fin]⟩
 
 end Core
+
+/-! ### the checker on diagrams (placeholder-adjusted index types) -/
+
+section Diagrams
+variable {K : Type} (pc : K × K → K × K → K) (dc : K × K → K)
+
+/-- pair costs / diagonal costs of the placeholder-adjusted diagrams, by index -/
+abbrev cP [Zero K] (S T : List (K × K)) := cOf pc (placeholder S) (placeholder T)
+abbrev uP [Zero K] (S : List (K × K)) := uOf dc (placeholder S)
+
+/-- the index type of a (placeholder-adjusted) diagram -/
+abbrev PIdx [Zero K] (S : List (K × K)) := Fin (placeholder S).length
+
+/-- **`checkRows_sound_bn`**: rows accepted for `(S, T)` whose largest third entry is `d` ARE a
+    partial matching of the two diagrams all of whose pairings cost at most `d`, and one pairing
+    costs exactly `d` — a feasible matching of bottleneck cost exactly `d`.
+    `hS`/`hT` (`0 ≤` diagonal cost, i.e. `b ≤ d` pointwise) are needed only for `0 ≤ d`. -/
+theorem checkRows_sound_bn [LinearOrder K] [Zero K] (S T : List (K × K)) (rows : List (Row K)) (d : K)
+    (hpc : ∀ p q, 0 ≤ pc p q) (hS : ∀ p ∈ placeholder S, 0 ≤ dc p) (hT : ∀ p ∈ placeholder T, 0 ≤ dc p)
+    (h : checkRowsBn pc dc S T rows d = true) :
+    ∃ p : PM (PIdx S) (PIdx T), p.MaxLE (cP pc S T) (uP dc S) (uP dc T) d
+      ∧ AttainsMax p (cP pc S T) (uP dc S) (uP dc T) d := by
+  simp only [checkRowsBn, Bool.and_eq_true, decide_eq_true_eq] at h
+  exact checkCore_sound_bn _ _ _ (fun _ _ => hpc _ _) (fun i => hS _ (List.getElem_mem i.2))
+    (fun j => hT _ (List.getElem_mem j.2)) h.1 h.2
+
+/-- the rows supply the `attained` half of `IsBottleneck` at `d`: with the `least` half (what C01
+    proves about the returned distance) `d` is the bottleneck cost … -/
+theorem rows_witness_attained_bn [LinearOrder K] [Zero K] (S T : List (K × K)) (rows : List (Row K)) (d : K)
+    (hpc : ∀ p q, 0 ≤ pc p q) (hS : ∀ p ∈ placeholder S, 0 ≤ dc p) (hT : ∀ p ∈ placeholder T, 0 ≤ dc p)
+    (h : checkRowsBn pc dc S T rows d = true)
+    (hleast : ∀ (q : PM (PIdx S) (PIdx T)) (d' : K), q.MaxLE (cP pc S T) (uP dc S) (uP dc T) d' → d ≤ d') :
+    IsBottleneck (cP pc S T) (uP dc S) (uP dc T) d := by
+  obtain ⟨p, hp, -⟩ := checkRows_sound_bn pc dc S T rows d hpc hS hT h
+  exact ⟨⟨p, hp⟩, hleast⟩
+
+/-- **`certificate_is_optimal_bn`** … and the matching the rows describe is an optimal one: its
+    largest pairing cost is `d`, and no partial matching has all its pairings below `d`. -/
+theorem certificate_is_optimal_bn [LinearOrder K] [Zero K] (S T : List (K × K)) (rows : List (Row K)) (d : K)
+    (hpc : ∀ p q, 0 ≤ pc p q) (hS : ∀ p ∈ placeholder S, 0 ≤ dc p) (hT : ∀ p ∈ placeholder T, 0 ≤ dc p)
+    (h : checkRowsBn pc dc S T rows d = true)
+    (hB : IsBottleneck (cP pc S T) (uP dc S) (uP dc T) d) :
+    ∃ p : PM (PIdx S) (PIdx T), p.MaxLE (cP pc S T) (uP dc S) (uP dc T) d
+      ∧ AttainsMax p (cP pc S T) (uP dc S) (uP dc T) d
+      ∧ ∀ (q : PM (PIdx S) (PIdx T)) (d' : K), q.MaxLE (cP pc S T) (uP dc S) (uP dc T) d' → ¬ d' < d := by
+  obtain ⟨p, hp, ha⟩ := checkRows_sound_bn pc dc S T rows d hpc hS hT h
+  exact ⟨p, hp, ha, fun q d' hq => not_lt.mpr (hB.least q d' hq)⟩
+
+/-- **`checkRows_sound_ws`**: accepted rows ARE a partial matching whose total cost is the sum of
+    the third entries (every point in exactly one row, no diagonal–diagonal row, so nothing is
+    counted twice or left out). -/
+theorem checkRows_sound_ws [AddCommMonoid K] [DecidableEq K] (S T : List (K × K)) (rows : List (Row K))
+    (h : checkRows pc dc S T rows = true) :
+    ∃ p : PM (PIdx S) (PIdx T), p.sumCost (cP pc S T) (uP dc S) (uP dc T) = rowsSum rows :=
+  checkCore_sound_ws _ _ _ h
+
+/-- **`certificate_is_optimal_ws`**: if moreover the sum is the min–sum cost `w` (C02's conclusion
+    about the returned distance), the rows are an optimal matching. -/
+theorem certificate_is_optimal_ws [AddCommMonoid K] [LinearOrder K] (S T : List (K × K))
+    (rows : List (Row K)) (w : K) (h : checkRowsWs pc dc S T rows w = true)
+    (hW : IsMinSum (cP pc S T) (uP dc S) (uP dc T) w) :
+    ∃ p : PM (PIdx S) (PIdx T), p.sumCost (cP pc S T) (uP dc S) (uP dc T) = w
+      ∧ ∀ q : PM (PIdx S) (PIdx T), p.sumCost (cP pc S T) (uP dc S) (uP dc T)
+          ≤ q.sumCost (cP pc S T) (uP dc S) (uP dc T) := by
+  simp only [checkRowsWs, Bool.and_eq_true, decide_eq_true_eq] at h
+  obtain ⟨p, hp⟩ := checkRows_sound_ws pc dc S T rows h.1
+  exact ⟨p, hp.trans h.2, fun q => by rw [hp, h.2]; exact hW.least q⟩
+
+/-- the rows supply the `attained` half of `IsMinSum` -/
+theorem rows_witness_attained_ws [AddCommMonoid K] [LinearOrder K] (S T : List (K × K))
+    (rows : List (Row K)) (w : K) (h : checkRowsWs pc dc S T rows w = true)
+    (hleast : ∀ q : PM (PIdx S) (PIdx T), w ≤ q.sumCost (cP pc S T) (uP dc S) (uP dc T)) :
+    IsMinSum (cP pc S T) (uP dc S) (uP dc T) w := by
+  simp only [checkRowsWs, Bool.and_eq_true, decide_eq_true_eq] at h
+  obtain ⟨p, hp⟩ := checkRows_sound_ws pc dc S T rows h.1
+  exact ⟨⟨p, hp.trans h.2⟩, hleast⟩
+
+/-- **`empty_as_origin`**: an empty first diagram is the one-point diagram `[(0,0)]`; the checker
+    treats both identically and accepts exactly rows in which index 0 of that side occurs once and
+    every other row has −1 there (the second diagram alike, by symmetry of the definition). -/
+theorem empty_as_origin [Zero K] [DecidableEq K] (T : List (K × K)) (rows : List (Row K)) :
+    placeholder ([] : List (K × K)) = [(0, 0)]
+    ∧ checkRows pc dc [] T rows = checkRows pc dc [(0, 0)] T rows
+    ∧ checkRows pc dc T [] rows = checkRows pc dc T [(0, 0)] rows
+    ∧ (checkRows pc dc [] T rows = true →
+        rows.countP (fun r => r.i == 0) = 1 ∧ ∀ r ∈ rows, r.i = 0 ∨ r.i = -1)
+    ∧ (checkRows pc dc T [] rows = true →
+        rows.countP (fun r => r.j == 0) = 1 ∧ ∀ r ∈ rows, r.j = 0 ∨ r.j = -1) := by
+  refine ⟨rfl, rfl, rfl, fun h => ?_, fun h => ?_⟩
+  · simp only [checkRows, checkCore, Bool.and_eq_true] at h
+    obtain ⟨hr, hM, -⟩ := (structOk_iff rows).mp h.1
+    refine ⟨by simpa using hM 0 (by simp [placeholder]), fun r hr' => ?_⟩
+    have := (inRange_iff _ _ _ _).mp (hr r hr')
+    simp only [placeholder, List.length_singleton] at this
+    omega
+  · simp only [checkRows, checkCore, Bool.and_eq_true] at h
+    obtain ⟨hr, -, hN⟩ := (structOk_iff rows).mp h.1
+    refine ⟨by simpa using hN 0 (by simp [placeholder]), fun r hr' => ?_⟩
+    have := (inRange_iff _ _ _ _).mp (hr r hr')
+    simp only [placeholder, List.length_singleton] at this
+    omega
+
+end Diagrams
 
 end PersimVerif.C06
